@@ -1,5 +1,7 @@
 package main
 
+import "strings"
+
 func init() {
 	registry["C06"] = checkC06
 	harnessList = append(harnessList, "h06")
@@ -93,10 +95,22 @@ func checkC06(e *RunEnv) *CheckResult {
 			}
 			pre = append(pre, Run("add", "a", "ab"))
 			jt := append(nameSetTags(set), "judge")
-			for _, q := range [][]string{{"a/b"}, {"a/c"}, {"a"}, {"a/b/d"}, {"a/b", "a/c"}, {"a/c", "a/b"}, {"ab", "a/b"}} {
-				for _, cmd := range [][]string{{"rm"}, {"restore"}, {"restore", "--staged"}, {"add"}} {
-					steps := append(append([]Step{}, pre...), Run(append(append([]string{}, cmd...), q...)...).WithTags(jt...))
-					cs = append(cs, Case{Base: base, BaseName: "S0", BaseSeed: seedS0(), Steps: steps})
+			// two variants of the state queried: edits re-staged / additionally one tracked path removed (a staged
+			// removal) and a new file, not tracked yet, in the first directory
+			pre2 := append(append([]Step{}, pre...), Run("rm", set[0]), Write("a/b/new", "not tracked yet\n"))
+			for vi, pv := range [][]Step{pre, pre2} {
+				qs := [][]string{{"a/b"}, {"a/c"}, {"a"}, {"a/b/d"}, {"a/b", "a/c"}, {"a/c", "a/b"}, {"ab", "a/b"}}
+				if vi == 1 {
+					qs = append(qs, []string{"a/b", "a/b/new"}, []string{"a", "./a/b/new"}, []string{"a/b/new", "a/b/new"})
+				}
+				for _, q := range qs {
+					for _, cmd := range [][]string{{"rm"}, {"restore"}, {"restore", "--staged"}, {"add"}} {
+						if vi == 1 && len(q) == 2 && strings.HasSuffix(q[1], "new") && cmd[0] != "add" {
+							continue
+						}
+						steps := append(append([]Step{}, pv...), Run(append(append([]string{}, cmd...), q...)...).WithTags(jt...))
+						cs = append(cs, Case{Base: base, BaseName: "S0", BaseSeed: seedS0(), Steps: steps})
+					}
 				}
 			}
 		}
@@ -127,7 +141,7 @@ func checkC06(e *RunEnv) *CheckResult {
 	var rerun []Violation
 	var rerunDone bool
 	res.Rejudge = func(v *Violation) []Violation {
-		if v.Case != nil {
+		if v.Case != nil || v.Oracle == "no-fatal" {
 			// the harness is deterministic: one complete second run confirms every in-module violation
 			if !rerunDone {
 				rerun, rerunDone = runH(), true
